@@ -74,7 +74,11 @@ func c15Judge(cs *core.Case, x *rtcp.ExtendedReport) {
 		kfs = append(kfs, "KF5")
 	}
 	kinds := ""
-	for _, b := range x.Reports {
+	for i, b := range x.Reports {
+		if i == 40 {
+			kinds += fmt.Sprintf("… (%d blocks)", len(x.Reports))
+			break
+		}
 		kinds += gen.XRKindOf(b).String() + " "
 	}
 	b, err, pan := gMarshal(x)
@@ -265,6 +269,11 @@ func runC15(c *core.Ctx) {
 			}
 		}
 		c15Judge(cs, xr)
+	})
+	// (2c) very many small blocks: block counts around 2^14 and up to what the 16-bit length field
+	// allows (every block is found, none is dropped; after seed C15l)
+	c.Section("many-blocks", c.N(24, 400), func(cs *core.Case) {
+		c15Judge(cs, gen.ManyBlocksXR(cs.R))
 	})
 	// (3) all T values and all flag/ToH combinations
 	c.Exhaustive("all 16 T values x 3 block types; all 32 L/D/J/ToH combinations", 16*3+32)
